@@ -137,7 +137,13 @@ def generate(rng, tier):
             gran = 8 if arch == "x86" else 16
             for reg in (R["sp"], R["fp"]):
                 for off in (0x3fff8 if arch == "x86" else 0x3fff0, 0x40000, 0x40000 + gran, 0x50000, 0x80000 - gran, 0x80000, 0x100000 - gran, 0x100000):
-                    for fpr in (("s",), ("o", -16), ("o", -off), ("o", 8 - off) if arch == "x86" else ("o", 16 - off)):
+                    # ... incl. slots exactly at the ends of the i16 range of the sp-relative slot index (L - gran is the last
+                    # that fits, L the first that does not; -L the lowest that fits): seeded change C05-3 took L for fitting
+                    L = 0x40000
+                    for fpr in (("s",), ("o", -16), ("o", -off), ("o", 8 - off) if arch == "x86" else ("o", 16 - off),
+                                ("o", L - off), ("o", L - gran - off), ("o", -L - off), ("o", -L - gran - off)):
+                        if fpr == ("o", 0):
+                            continue
                         for rar in (("o", -8), ("s",), ("o", 8 - off)):
                             sysrows.append(dict(cfa=("r", reg, off), fp=fpr, ra=rar))
             # the rarely used rule forms: val_offset and register, for the frame pointer and the return address
